@@ -1,4 +1,6 @@
 """Generic detectors shared by the property rules and exercised on the fixtures crate on every run."""
+import json
+import os
 import re
 
 from engine import guards as G
@@ -292,6 +294,8 @@ def is_structural_atom(a):
         return True
     if pred in ("bool", "switch") and isinstance(t, tuple) and t[0] == "const":
         return True
+    if pred in ("is_some", "is_ok", "variant") and isinstance(t, tuple) and t[0] == "agg":
+        return True      # test of a value constructed right there (`if let Some(..) = None` left by tracing macros): its outcome is fixed
     return False
 
 
@@ -754,3 +758,320 @@ def monotone_write(prog, b, bb, value, field, owner=None):
         if a[2] is False and K.is_field(y, field, owner) and _strip_ids(x) == sv:      # !(value < old)
             return True
     return False
+
+
+# ------------------------------------------------------------------------------------ loops that must run to exhaustion
+def _param_rooted(b):
+    """locals through which state outside the function is reachable mutably: parameters / the closure environment, and
+    mutable references derived from them (re-borrows, moves, calls returning `&mut` given such an argument)"""
+    cached = b.__dict__.get("_prooted")
+    if cached is not None:
+        return cached
+    R = set(range(1, b.argc + 1))
+
+    def plain(o):
+        pl = o.get("c") or o.get("m")
+        return pl["l"] if pl is not None else None
+    for _ in range(6):
+        n0 = len(R)
+        for bb, i, dst, rv, sp in b.assignments():
+            if dst["p"]:
+                continue
+            if rv["k"] == "ref" and rv.get("mut") and rv["pl"]["l"] in R:
+                R.add(dst["l"])
+            elif rv["k"] == "use" and plain(rv["a"]) in R and b.local_ty(dst["l"]).startswith("&mut"):
+                R.add(dst["l"])
+        for bl in b.blocks:
+            t = bl["term"]
+            if t["k"] == "call" and not t["dst"]["p"] and b.local_ty(t["dst"]["l"]).startswith("&mut"):
+                if any(plain(a) in R for a in t["args"]):
+                    R.add(t["dst"]["l"])
+        if len(R) == n0:
+            break
+    b.__dict__["_prooted"] = R
+    return R
+
+
+_ITER_STEP = ("next", "next_back", "poll", "poll_next", "into_iter", "iter", "iter_mut", "size_hint", "len", "get", "contains", "contains_key", "deref", "deref_mut", "as_ref", "as_mut", "borrow", "borrow_mut")
+
+
+def loop_effects(b, nodes):
+    """what a loop body does to the world outside the function: ['await' | 'write <place>' | 'call <callee>(&mut ..)']"""
+    R = _param_rooted(b)
+    out = []
+    for bl in b.blocks:
+        if bl["id"] not in nodes:
+            continue
+        t = bl["term"]
+        if t["k"] == "yield":
+            out.append("await")
+        for st in bl["stmts"]:
+            if st["k"] == "assign" and st["dst"]["p"] and st["dst"]["l"] in R:
+                out.append("write through " + (b.local_name(st["dst"]["l"]) or "_%d" % st["dst"]["l"]))
+        if t["k"] == "call":
+            nm = mir.strip_generics(t.get("resolved") or t.get("callee") or "")
+            if nm.rsplit("::", 1)[-1] in _ITER_STEP:
+                continue
+            for a in t["args"]:
+                pl = a.get("c") or a.get("m")
+                if pl is not None and not pl["p"] and pl["l"] in R and b.local_ty(pl["l"]).startswith("&mut"):
+                    out.append("call %s(&mut ..)" % mir.short(nm))
+                    break
+    return out
+
+
+def _is_await_loop(b, header, nodes):
+    """every way round the loop passes a yield (suspension point): header -> .. -> Pending -> yield -> resume -> header"""
+    latches = set(u for (u, h, _l) in b.edges() if h == header and u in nodes)
+    yields = set(x for x in nodes if b.blocks[x]["term"]["k"] == "yield")
+    if not yields:
+        return False
+    seen = set()
+    stack = [header]
+    while stack:
+        x = stack.pop()
+        if x in seen or x not in nodes or x in yields:
+            continue
+        seen.add(x)
+        if x in latches:
+            return False
+        stack.extend(y for y in b.succ()[x] if y != header)
+    return True
+
+
+def early_exit_loops(prog, b):
+    """[(header, [exit edges], effects)] for loops of b (not the loops an `.await` expands to) that act on outside state and can be
+    left before their iterator / condition is exhausted"""
+    out = []
+    for h, nodes in b.loops():
+        ex = b.loop_exits(h, nodes)
+        real = [e for e in ex if e[2] != "panic"]
+        if real and all(e[2] == "await" for e in real):
+            continue
+        if _is_await_loop(b, h, nodes):
+            continue        # the polling loop of an `.await` (possibly with an inlined async helper as its body): left when the future is done
+        early = [e for e in real if e[2] == "early"]
+        if not early:
+            continue
+        if len(set(x for _a, x, _k in real)) == 1 and not any(e[2] == "exhausted" for e in real):
+            continue        # `loop { .. if done { break } .. }` with a single way out: that test IS the loop condition
+        eff = loop_effects(b, nodes)
+        if eff:
+            out.append((h, early, eff))
+    return out
+
+
+def ob_loop_exits(run, oid, prefixes, why):
+    """every loop in the given modules that acts on outside state runs until its iterator / condition is exhausted, except the
+    reviewed ones (rules/loop_review.py)"""
+    from . import loop_review
+    prog = run.program("lib")
+    o = run.ob(oid, "loops that act on state outside the function (sends, &mut calls, writes) visit every element: no early return / break / `?`, reviewed exceptions aside",
+               why, floor=1)
+    found = {}
+    nloops = 0
+    for d, b in sorted(prog.bodies.items()):
+        if b.generated or not any(p in d for p in prefixes):
+            continue
+        nloops += len(b.loops())
+        for h, early, eff in early_exit_loops(prog, b):
+            root = d.replace("alpenglow::", "").split("::{closure")[0]
+            found.setdefault(root, []).append((b, h, early, eff))
+    for root, lst in sorted(found.items()):
+        rev = loop_review.TABLE.get(root)
+        n_ok = min(len(lst), rev[0]) if rev else 0
+        if n_ok:
+            o.ok("%s|early-exit-loop|reviewed" % root, "reviewed (%d loop(s)): %s" % (n_ok, rev[1]), lst[0][0].span, nontrivial=False)
+        for i, (b, h, early, eff) in enumerate(lst[n_ok:]):
+            sp = b.blocks[early[0][0]]["term"].get("sp", "") or b.span
+            o.fail("%s|early-exit-loop|%d" % (root, i), "a loop that %s can be left before every element was visited (break / return / `?` inside the loop)" % ", ".join(sorted(set(eff))[:3]),
+                   sp, {"exits": [(a, x) for a, x, _k in early][:4], "reviewed": rev[0] if rev else 0})
+    o.ok("loops-examined", "%d loops in %s examined" % (nloops, ", ".join(prefixes)), "", nontrivial=nloops > 0)
+    return o
+
+
+# ------------------------------------------------------------------------------------ derived (structural) impls stay structural
+def _manual_impl_is_fieldwise(prog, adt, trait, impl_def):
+    """a hand-written PartialEq / Ord / Hash / Clone that still treats every field as a whole: each field of the type takes part, through a
+    call of the same trait's method (or `==`) on exactly that field of self (and of other), with no indexing, slicing, loops or arithmetic"""
+    r = prog.adts.get(adt)
+    if r is None:
+        return False
+    method = {"PartialEq": "eq", "PartialOrd": "partial_cmp", "Ord": "cmp", "Hash": "hash", "Clone": "clone"}.get(trait)
+    if method is None:
+        return False
+    b = prog.bodies.get(mir.strip_generics(impl_def) + "::" + method)
+    if b is None:
+        return False
+    if b.loops():
+        return False
+    fields = [f["name"] for v in r["variants"] for f in v["fields"]]
+    if r.get("is_enum"):
+        return False
+    seen = set()
+    for c in b.calls():
+        last = c.name.rsplit("::", 1)[-1]
+        if last in ("index", "index_mut", "get", "get_unchecked", "chunks", "chunks_exact", "step_by", "iter", "split_at", "from_le_bytes", "from_be_bytes", "from_ne_bytes", "try_into"):
+            return False
+        if last in (method, "eq", "ne", "cmp", "partial_cmp", "ct_eq", "hash", "clone", "then", "then_with"):
+            for a in c.args:
+                t = K.peel(b.operand_term(a))
+                while isinstance(t, tuple) and t and t[0] in ("ref", "deref") and len(t) > 1:
+                    t = t[1]
+                if isinstance(t, tuple) and t and t[0] == "field" and isinstance(t[1], tuple) and t[1][0] == "param" and t[3].split("::<")[0] == adt:
+                    seen.add(t[2])
+    for bl in b.blocks:
+        for st in bl["stmts"]:
+            if st["k"] == "assign" and st["rv"]["k"] == "bin" and st["rv"].get("op") in ("BitXor", "BitOr", "BitAnd", "Shl", "Shr", "Add", "Sub", "Mul"):
+                return False
+    return set(fields) <= seen
+
+
+def ob_structural_impls(run, oid, prefixes, why):
+    """equality / order / hash / clone of the types under `prefixes` that were derived on the reviewed tree are still derived (or, when
+    hand-written now, still field-wise)"""
+    prog = run.program("lib")
+    o = run.ob(oid, "equality, ordering, hashing and cloning of the value types are structural: every impl derived on the reviewed tree is still derived (or a field-wise hand-written one)",
+               why, floor=3)
+    with open(os.path.join(os.path.dirname(os.path.abspath(__file__)), "known_items.json")) as fh:
+        derived = json.load(fh).get("derived", [])
+    cur = {}
+    for im in prog.impls:
+        tr = im.get("trait", "").rsplit("::", 1)[-1]
+        if im.get("self_adt") and tr:
+            cur.setdefault((im["self_adt"], tr), []).append(im)
+    n = 0
+    for adt, tr in derived:
+        if not any(adt.startswith("alpenglow::" + p) or adt.startswith(p) for p in prefixes):
+            continue
+        if adt not in prog.adts:
+            continue        # the type itself is gone: its anchors report that
+        ims = cur.get((adt, tr), [])
+        n += 1
+        key = "%s|%s" % (K.fshort(adt), tr)
+        if not ims:
+            if tr in ("Clone", "Default", "PartialOrd", "Ord", "Hash"):
+                o.ok(key + "|removed", "impl %s no longer exists (code that needed it would not compile)" % tr, prog.adts[adt]["span"], nontrivial=False)
+            else:
+                o.ok(key + "|removed", "impl %s no longer exists (code that compared values would not compile)" % tr, prog.adts[adt]["span"], nontrivial=False)
+            continue
+        im = ims[0]
+        if im.get("derived"):
+            o.ok(key, "derived", im.get("span", ""), nontrivial=False)
+        elif _manual_impl_is_fieldwise(prog, adt, tr, im.get("def", "")):
+            o.ok(key + "|fieldwise", "hand-written but field-wise over every field", im.get("span", ""))
+        else:
+            o.fail(key + "|hand-written", "%s for %s was derived (structural over all fields) on the reviewed tree and is now hand-written and not recognisably field-wise: "
+                   "everything that compares / orders / hashes / copies such values depends on it" % (tr, K.fshort(adt)), im.get("span", ""))
+    o.ok("impls-examined", "%d reviewed derived impls under %s examined" % (n, ", ".join(prefixes)), "", nontrivial=n > 0)
+    return o
+
+
+# ------------------------------------------------------------------------------------ lossy integer casts
+_INT_W = {"u8": 8, "u16": 16, "u32": 32, "u64": 64, "usize": 64, "u128": 128, "i8": 8, "i16": 16, "i32": 32, "i64": 64, "isize": 64, "i128": 128}
+
+
+def narrowing_casts(prog, b, below=32):
+    """[(span, from, to, bounded?, term)] for integer casts in b that drop bits down to fewer than `below` bits; bounded = the operand
+    provably fits (constant, `% c`, `& c`, `>> c`, min(.., c), or a dominating comparison with a constant that fits)"""
+    out = []
+    for bb, i, dst, rv, sp in b.assignments():
+        if rv["k"] != "cast" or rv.get("ck") != "IntToInt":
+            continue
+        to = rv.get("ty")
+        a = rv["a"]
+        pl = a.get("c") or a.get("m")
+        fr = b.local_ty(pl["l"]) if pl is not None and not pl["p"] else (a.get("k", {}).get("ty") if "k" in a else None)
+        if to not in _INT_W or fr not in _INT_W or _INT_W[to] >= _INT_W[fr] or _INT_W[to] >= below:
+            continue
+        lim = 1 << (_INT_W[to] - (1 if to.startswith("i") else 0))
+        t = K.peel(b.operand_term(a))
+        bounded = False
+
+        def cval(x):
+            return x[2] if isinstance(x, tuple) and len(x) >= 3 and x[0] == "const" and isinstance(x[2], int) else None
+        while isinstance(t, tuple) and t and t[0] == "field" and isinstance(t[1], tuple) and t[1][0] == "bin" and t[2] == "0":
+            t = t[1]        # (a op b).0 of a checked operation
+        if cval(t) is not None and 0 <= cval(t) < lim:
+            bounded = True
+        elif isinstance(t, tuple) and t and t[0] == "bin":
+            op, x, y = t[1], t[2], t[3]
+            if op.startswith("Rem") and cval(y) is not None and 0 < cval(y) <= lim:
+                bounded = True
+            elif op == "BitAnd" and ((cval(y) is not None and 0 <= cval(y) < lim) or (cval(x) is not None and 0 <= cval(x) < lim)):
+                bounded = True
+            elif op.startswith("Shr") and cval(y) is not None and fr in _INT_W and _INT_W[fr] - cval(y) <= _INT_W[to] - (1 if to.startswith("i") else 0):
+                bounded = True
+        elif isinstance(t, tuple) and t and t[0] == "call" and t[1].rsplit("::", 1)[-1] in ("min", "clamp") and any(cval(x) is not None and cval(x) < lim for x in t[2]):
+            bounded = True
+        if not bounded:
+            for g in G.guard_atoms(b, bb, prog):
+                if g[0] in ("lt", "le") and len(g[1]) == 2:
+                    lo, hi = g[1]
+                    if g[2] is True and K.peel(lo) == t and cval(hi) is not None and cval(hi) <= lim:
+                        bounded = True
+                    if g[2] is False and K.peel(hi) == t and cval(lo) is not None and cval(lo) < lim:
+                        bounded = True       # !(c < x)  <=>  x <= c
+        out.append((sp, fr, to, bounded, t))
+    return out
+
+
+def ob_narrowing_casts(run, oid, prefixes, why):
+    prog = run.program("lib")
+    o = run.ob(oid, "no integer cast to fewer than 32 bits drops bits of a value that is not provably small (lengths, offsets, indices, slots)", why, floor=1)
+    n = 0
+    nb = 0
+    for d, b in sorted(prog.bodies.items()):
+        if b.generated or not any(p in d for p in prefixes):
+            continue
+        nb += 1
+        k = 0
+        for (sp, fr, to, bounded, t) in narrowing_casts(prog, b):
+            n += 1
+            key = "%s|cast|%s->%s|%d" % (K.fshort(d).split("::{closure")[0], fr, to, k)
+            k += 1
+            if bounded:
+                o.ok(key, "operand provably fits", sp)
+            else:
+                o.fail(key, "`%s as %s` truncates a value that is not bounded: %s" % (fr, to, mir.show(t)[:70]), sp)
+    o.ok("bodies-examined", "%d bodies under %s examined, %d cast(s) to fewer than 32 bits" % (nb, ", ".join(prefixes), n), "", nontrivial=nb > 0)
+    return o
+
+
+# ------------------------------------------------------------------------------------ new fields on reviewed types
+def ob_new_fields(run, oid, prefixes, why, skip_owners=()):
+    """a field added to a reviewed struct is harmless when reviewed code only ever updates it (statistics) or never touches it; a new field
+    whose value reviewed code reads carries state from one call to the next and takes part in the logic: report it"""
+    prog = run.program("lib")
+    o = run.ob(oid, "no new field of a reviewed type carries state into reviewed logic (new fields are write-only statistics or used by new code only)", why, floor=1)
+    here = os.path.dirname(os.path.abspath(__file__))
+    with open(os.path.join(here, "known_items.json")) as fh:
+        kad = json.load(fh).get("adts", {})
+    with open(os.path.join(here, "known_fns.json")) as fh:
+        known_fns = set(json.load(fh)["fns"])
+    n = 0
+    for full, r in sorted(prog.adts.items()):
+        if full not in kad or not any(("alpenglow::" + p) in full or full.startswith(p) for p in prefixes) or "::_::" in full:
+            continue
+        if any(full.endswith(s) for s in skip_owners):
+            continue
+        n += 1
+        for v, kv in zip(r["variants"], kad[full]["variants"]):
+            old = set(f for f, _t in kv["fields"])
+            for f in v["fields"]:
+                if f["name"] in old:
+                    continue
+                readers = []
+                for d2, b2 in prog.bodies.items():
+                    if b2.generated or d2.split("::{closure")[0] not in known_fns:
+                        continue
+                    for sp2 in logic_reads_of_field(b2, full, f["name"]):
+                        readers.append((K.fshort(d2), sp2))
+                key = "%s.%s" % (K.fshort(full), f["name"])
+                if readers:
+                    o.fail(key + "|new-field-read-by-reviewed-code", "new field %s.%s is read by code that existed on the reviewed tree (%s): it carries state into that logic and needs review" % (
+                        K.fshort(full), f["name"], readers[0][0]), readers[0][1])
+                else:
+                    o.ok(key + "|new-write-only-field", "new field, only updated / used by new code", r["span"], nontrivial=False)
+    o.ok("types-examined", "%d reviewed types under %s examined" % (n, ", ".join(prefixes)), "", nontrivial=n > 0)
+    return o
